@@ -80,7 +80,7 @@ theorem step_lBrace' {d : Nat} {stack : List Node} (h : Stk (d + 1) stack) (lr l
   | true => exact .inl ⟨_, rfl, rfl⟩
   | false =>
     refine .inr ⟨Node.rootNode :: stack, rfl, ?_⟩
-    exact Stk.cons (l := [Node.rootNode]) (Level.r _ rfl) h
+    exact Stk.cons (l := [Node.rootNode]) (StkLevel.r _ rfl) h
 
 theorem juxt_rBrace (lr li : Bool) : juxtaposed lr li .rBrace = false := by
   simp [juxtaposed, Token.isNot, Token.isLeftsidedValue]
